@@ -777,7 +777,7 @@ func main() {
 	_ = mode
 	defer run.Finish()
 	bin, _ := os.Executable()
-	run.Rule = "every interleaving of the 5 hook-delimited segments (call, lockFD+flock, seekEnd, write, funlock+unlockFD) of 2 appender threads in one process (exhaustive) and of 2 processes x 1 thread (exhaustive in thorough, sampled in quick), 3 threads / 2x2 in thorough; after every release the observed thread states and file records are compared with the model replaying the same schedule prefix; distinct = distinct complete schedules; request-level users of the same locks: header writers (ptt.WriteFile -> .post) held at each of the 4 hook points x 0..2 whole calls meanwhile (model-compared), N header writers released together, and commenters (ptt.Recommend / bbs.CreateComment) + appenders in one process with a second process appending to the same record files (judged by the property oracle)"
+	run.Rule = "every interleaving of the 5 hook-delimited segments (call, lockFD+flock, seekEnd, write, funlock+unlockFD) of 2 appender threads in one process (exhaustive) and of 2 processes x 1 thread (exhaustive in thorough, sampled in quick), 3 threads / 2x2 in thorough; after every release the observed thread states and file records are compared with the model replaying the same schedule prefix; distinct = distinct complete schedules; request-level users of the same locks: header writers (ptt.WriteFile -> .post) held at each of the 4 hook points x 0..2 whole calls meanwhile (model-compared), N header writers released together, and commenters (ptt.Recommend / bbs.CreateComment) + appenders in one process with a second process appending to the same record files, and posters (ptt.NewPost) on one board with a second process appending to its .DIR: reported index distinct and holding the poster's entry (judged by the property oracle)"
 
 	if run.Replay != "" {
 		for _, l := range hx.ReplayOps(run.Replay) {
@@ -796,6 +796,10 @@ func main() {
 			if len(f) == 3 && f[0] == "postlog" {
 				a := parseInts(f[1] + "," + f[2])
 				postlogStress(bin, a[0], a[1])
+			}
+			if len(f) == 3 && f[0] == "posts" {
+				a := parseInts(f[1] + "," + f[2])
+				postsRun(bin, a[0], a[1])
 			}
 			if len(f) == 5 && f[0] == "mix" {
 				a := parseInts(strings.Join(f[1:], ","))
@@ -942,9 +946,12 @@ func main() {
 		postlogStress(bin, 3, 600)
 		mixRun(bin, 4, 16, 25000, 200)
 		mixRun(bin, 4, 16, 10000, 0)
+		postsRun(bin, 4, 15000)
+		postsRun(bin, 1, 8000)
 	} else {
 		postlogStress(bin, 8, 150)
 		mixRun(bin, 4, 16, 7000, 200)
+		postsRun(bin, 3, 3000)
 	}
 }
 
